@@ -129,9 +129,10 @@ class C06(core.Check):
         'illegal:undefined', 'illegal:dup-global', 'illegal:dup-file', 'illegal:dup-local', 'illegal:orphan-local',
         'illegal:register-name', 'illegal:register-name/declared-in-upper-case', 'illegal:keyword-name', 'illegal:dup-global-across-files', 'illegal:dup-same-value',
         'dead-branch-inside-region', 'dead-branch-between-local-def-and-use', 'reference-on-a-muted-line', 'reference-in-a-zero-length-fill', 'const-between-def-and-use',
-        'files:1', 'files:2', 'files:3+', 'expect:ACCEPT', 'expect:REJECT', 'ref:forward', 'ref:backward']}
+        'files:1', 'files:2', 'files:3+', 'expect:ACCEPT', 'expect:REJECT', 'ref:forward', 'ref:backward',
+        'label-not-first-on-its-line/global', 'label-not-first-on-its-line/local', 'label-not-first-on-its-line/file']}
 
-    def build(self, rng, illegal, mute_refs=None, zero_refs=None):
+    def build(self, rng, illegal, mute_refs=None, zero_refs=None, join_p=0.15):
         nfiles = rng.choice([1, 1, 2, 2, 3, 4])
         fnames = ['p.asm'] + [f'inc{i}.asm' for i in range(1, nfiles)]
         files = {f: [] for f in fnames}
@@ -303,8 +304,17 @@ class C06(core.Check):
         fl = {}
         for f in fnames:
             out = []
+            prev_k = None
             for it in files[f]:
                 k = it['k']
+                joinable, prev_k = prev_k in ('marker', 'const'), k
+                if k == 'label' and joinable and rng.random() < join_p:
+                    # a label that is not the first statement on its line is a label like any other
+                    out[-1] += rng.choice([' ', '  ', '\t']) + it['name'] + ':'
+                    tags.add('label-not-first-on-its-line')
+                    tags.add('label-not-first-on-its-line/' + ('local' if it['name'].startswith('.') else
+                                                                'file' if it['name'].startswith('_') else 'global'))
+                    continue
                 if k == 'marker':
                     out.append(f".byte {it['v']}")
                 elif k == 'ref' and it.get('zero'):
@@ -513,7 +523,8 @@ class C06(core.Check):
                 ill = ([None] + self.ILLEGAL)[made % (len(self.ILLEGAL) + 1)]
             elif rng.random() < 0.5:
                 ill = rng.choice(self.ILLEGAL)
-            c = self.build(rng, ill, mute_refs=(made % 2 == 1) if made < n_pre else None, zero_refs=(made % 3 == 2) if made < n_pre else None)
+            c = self.build(rng, ill, mute_refs=(made % 2 == 1) if made < n_pre else None, zero_refs=(made % 3 == 2) if made < n_pre else None,
+                           join_p=0.6 if (made < n_pre and made % 4 == 1) else 0.15)
             if c is None:
                 if made < n_pre:
                     made += 0
